@@ -227,6 +227,28 @@ def restore(ctx, prog):
         ctx.violation(rule, body.id, "restored subscriptions not registered under the new id",
                       "handle_new_connection restores a session's subscriptions into the connection and tracker but never enters the new connection id into subscription_map (handle_disconnection removed the old one): "
                       "an UNSUBSCRIBE of the resumed client is answered NoSubscriptionExisted and the subscription stays in force", site=body.fn_loc())
+    # ... and so is its membership of shared groups: handle_disconnection takes the client out of every group, the
+    # restored data requests still name theirs
+    dis = prog.one(r"^router::routing::Router::handle_disconnection$")
+    leaves = [b2.id for b2 in [dis] + prog.find(r"^router::routing::Router::handle_disconnection::\{closure#\d+\}$")
+              for bb, t in b2.calls() if callee_path(t).endswith("SharedGroup::remove_client") and not b2.is_cleanup(bb)]
+    if not leaves:
+        raise AnchorMissing("handle_disconnection: SharedGroup::remove_client not found (group membership of a closed connection)")
+    joined = False
+    for b2 in [body] + prog.find(r"^router::routing::Router::handle_new_connection::\{closure#\d+\}$"):
+        for bb, t in b2.calls():
+            if b2.is_cleanup(bb) or not callee_path(t).endswith("SharedGroup::add_client"):
+                continue
+            recv = flatten_src(provenance(b2, t["args"][0], through_calls=[r"Entry::<'a, K, V(, A)?>::or_default$", r"Entry::<'a, K, V(, A)?>::or_insert(_with)?$", r"HashMap::<K, V, S(, A)?>::(entry|get_mut)$", r"Option::<T>::unwrap$"]))
+            if any(getattr(x, "fields", None) and "shared_subscriptions" in x.fields[-1] for x in recv):
+                joined = True
+    if joined:
+        ctx.ok(rule, body.id, "a resumed session is put back into the shared groups its restored requests name")
+    else:
+        ctx.violation(rule, body.id, "restored shared subscriptions not re-joined",
+                      "handle_disconnection removes the client from every shared group (%s) and handle_new_connection restores the session's data requests, which still name their group, without SharedGroup::add_client: "
+                      "the resumed client is never the group's current client again (its subscription is dead while other members exist) and, once the group is gone, reads from its own stale cursor what other members already received" % leaves[0],
+                      site=body.fn_loc())
     # ConnAck.session_present
     found = False
     for bi, b in enumerate(body.blocks):
